@@ -1,7 +1,8 @@
 (* Wire format and driver entry of the crash/state model (Model/CrashStore.v), extracted
    by Extract/ExC06State.v.  Definitions only (glue: decoding, running, printing).
 
-   case   : (lazy t0 (call ...))         run from [cr_init sq_init t0]
+   case   : (lazy t0 (call ...))         run from [cr_init sq_init t0]      (lazy = 0 | 1)
+          | (2 (cop ...) skip) | (3 (cop ...) (j ...))   see [driver_entry] (real crashes, thorough tier)
    call   : (cop (clk ...))              clk = (r1 r2 r3), one per OBSERVED micro-step of the
                                          call (a row of an executemany counts as one step)
    cop    : (0 op) | (1 b (ev ...) k)    op as in Extract/ExC02.v:
@@ -144,8 +145,44 @@ Fixpoint run_calls (lazy : bool) (s : crstate) (dirty : bool) (calls : list (cop
       else ([L [A 0; L (map shape_s ms)]], s)
   end.
 
+(* ---- real crashes (thorough tier): the tables after the first j statements of a history ---- *)
+
+Definition digest_s (c : sqstate) : sexp :=
+  L [A (Z.of_nat (length (sq_buckets c))); A (Z.of_nat (length (sq_events c)));
+     A (sq_seq_b c); A (sq_seq_e c);
+     A (sumZ (map er_data (sq_events c))); A (sumZ (map er_start (sq_events c)))].
+
+(* digests of [apply_stmts c (firstn j qs)] for j = skip .. |qs| *)
+Fixpoint prefix_digests (skip : nat) (c : sqstate) (qs : list stmt) : list sexp :=
+  let rest := match qs with [] => [] | q :: t => prefix_digests (Nat.pred skip) (stmt_step c q) t end in
+  match skip with O => digest_s c :: rest | S _ => rest end.
+
+Fixpoint script_sizes (c : sqstate) (h : list cop) : list Z :=
+  match h with
+  | [] => []
+  | o :: t => Z.of_nat (length (stmts_of (sscript c o))) :: script_sizes (cop_live c o) t
+  end.
+
+Definition sCops (s : sexp) : option (list cop) := sList sCop s.
+
 Definition driver_entry (s : sexp) : sexp :=
   match s with
+  | L [A 2; h; A skip] =>
+      (* (2 (cop ...) skip) -> ((statements per call ...) (digest of the tables after j statements, j >= skip ...)) *)
+      match sCops h with
+      | Some h =>
+          L [L (map A (script_sizes sq_init h));
+             L (prefix_digests (Z.to_nat skip) sq_init (stmts_of (hist_script sq_init h)))]
+      | None => bad_case
+      end
+  | L [A 3; h; js] =>
+      (* (3 (cop ...) (j ...)) -> the tables after the first j statements, for each j *)
+      match sCops h, sZs js with
+      | Some h, Some js =>
+          let qs := stmts_of (hist_script sq_init h) in
+          L (map (fun j => tables_s (apply_stmts sq_init (firstn (Z.to_nat j) qs))) js)
+      | _, _ => bad_case
+      end
   | L [lz; A t0; calls] =>
       match sBool lz, sList sCall calls with
       | Some lz, Some calls =>
